@@ -69,6 +69,14 @@ CHECKS = {
              "operands kept in order; variables equal.",
         technique="TLA+ reference grammar + exact field semantics; TLC exhaustive token strings; TLC trace validation of real parse calls",
         ref="5/C03"),
+    "C08": dict(
+        text="Schemas.tla writes each rule's documented transformation as schemas (from rules/*.md, the docstrings and the property): documented forms x coefficients "
+             "{absent,2,-3,1/2,12} x variables x exponents {absent,2,3,-1,1/2,0} x up to 13 surrounding contexts, with the documented result and the documented refusals. TLC "
+             "instantiates them (~17k instances) and writes them out; each is built through the public constructors and replayed into the real rule; TLC validates accepted/refused, "
+             "that the rule did something, and the result's shape - exactly, up to AC of + and * (bag-normal forms), or as (p'+q') * k u^n with k p' = p, k q' = q - and that every "
+             "documented result means the same as its input.",
+        technique="TLA+ transformation schemas instantiated by TLC and replayed into the code; TLC trace validation up to AC-normal forms",
+        ref="5/C08, Appendix B"),
     "C09": dict(
         text="Session.tla is the state machine of a rewriting session (start, current term, exactness) whose step relation is the relational contract. Real sessions "
              "with one persistent set of rule objects - every two-step script from 50 seed expressions/equations and seeded random walks of up to 30 steps, each step on "
